@@ -419,7 +419,9 @@ class Contrasts(metaclass=InterfaceMeta):
             )
 
         if sparse:
-            return scipy.sparse.linalg.inv(coding_matrix.tocsc())
+            # `scipy.sparse.linalg.inv` returns a 1-d ndarray for 1x1 inputs (a
+            # single level); always hand back a sparse matrix.
+            return spsparse.csc_matrix(scipy.sparse.linalg.inv(coding_matrix.tocsc()))
         return numpy.linalg.inv(coding_matrix)
 
     @abstractmethod
